@@ -1,6 +1,10 @@
 package engine
 
-import "hash/maphash"
+import (
+	"hash/maphash"
+	"sync"
+	"sync/atomic"
+)
 
 // Key is a 128-bit compacted canonical state key (two independent 64-bit
 // hashes of the canonical byte form; the probability that two of 10^7 states
@@ -70,6 +74,98 @@ func BFS[S any](init S, maxDepth int, stateCap int64, key func(*S) Key,
 		}
 		res.Depth = depth + 1
 		level = next
+	}
+	res.Frontier = int64(len(level))
+	return res
+}
+
+// BFSPar is BFS with the nodes of a level expanded by several goroutines.
+// expand is called concurrently with a worker index in [0,workers); everything
+// it touches besides its arguments must be indexed by that worker. Successors
+// are merged in node order, so the result (states, paths, depth) is the same as
+// with the sequential search.
+func BFSPar[S any](init S, maxDepth int, stateCap int64, workers int, key func(*S) Key,
+	expand func(w int, n *Node[S], emit func(next S, op uint16))) BFSResult {
+	if workers < 1 {
+		workers = 1
+	}
+	type cand struct {
+		s      S
+		k      Key
+		op     uint16
+		parent int32
+	}
+	var res BFSResult
+	seen := map[Key]struct{}{}
+	seen[key(&init)] = struct{}{}
+	res.States = 1
+	level := []*Node[S]{{State: init}}
+	const chunk = 32
+	for depth := 0; depth < maxDepth && len(level) > 0; depth++ {
+		nchunks := (len(level) + chunk - 1) / chunk
+		cands := make([][]cand, nchunks)
+		trans := make([]int64, nchunks)
+		var next atomic.Int64
+		var wg sync.WaitGroup
+		for w := 0; w < min(workers, nchunks); w++ {
+			wg.Add(1)
+			go func(w int) {
+				defer wg.Done()
+				for {
+					c := int(next.Add(1)) - 1
+					if c >= nchunks {
+						return
+					}
+					local := map[Key]struct{}{}
+					lo, hi := c*chunk, min((c+1)*chunk, len(level))
+					for i := lo; i < hi; i++ {
+						n := level[i]
+						expand(w, n, func(s S, op uint16) {
+							trans[c]++
+							k := key(&s)
+							if _, ok := seen[k]; ok { // seen is read-only while a level is expanded
+								return
+							}
+							if _, ok := local[k]; ok {
+								return
+							}
+							local[k] = struct{}{}
+							cands[c] = append(cands[c], cand{s, k, op, int32(i)})
+						})
+					}
+				}
+			}(w)
+		}
+		wg.Wait()
+		var nextLevel []*Node[S]
+		for c := range cands {
+			res.Transitions += trans[c]
+			for _, x := range cands[c] {
+				if _, ok := seen[x.k]; ok {
+					continue
+				}
+				if res.States >= stateCap {
+					res.CapHit = true
+					break
+				}
+				seen[x.k] = struct{}{}
+				res.States++
+				pp := level[x.parent].Path
+				p := make([]uint16, len(pp)+1)
+				copy(p, pp)
+				p[len(pp)] = x.op
+				nextLevel = append(nextLevel, &Node[S]{State: x.s, Path: p})
+			}
+			cands[c] = nil
+			if res.CapHit {
+				break
+			}
+		}
+		if res.CapHit {
+			break
+		}
+		res.Depth = depth + 1
+		level = nextLevel
 	}
 	res.Frontier = int64(len(level))
 	return res
